@@ -169,6 +169,51 @@ type c08TypedCase struct {
 	Kind    string `json:"kind"`    // bool | int | float | string
 	Variant string `json:"variant"` // var | default | split | yaml11-true | yaml11-false | invalid
 	Text    string `json:"text"`    // what the variable holds
+	Dotted  bool   `json:"dotted"`  // the service and the resources carry names with a dot (`svc.v1`)
+}
+
+// dotNames renames the service and the top-level resources of the fat document to names containing a dot,
+// keeping every reference consistent. Names are user chosen: a dot in them must not confuse path matching.
+func dotNames(doc map[string]any) {
+	ren := func(section, from, to string) {
+		if m, ok := doc[section].(map[string]any); ok {
+			if v, ok := m[from]; ok {
+				m[to] = v
+				delete(m, from)
+			}
+		}
+	}
+	ren("services", "svc", "svc.v1")
+	ren("networks", "net", "net.v1")
+	ren("volumes", "vol", "vol.v1")
+	ren("volumes", "extvol", "extvol.v1")
+	ren("secrets", "sec", "sec.v1")
+	ren("configs", "cfg", "cfg.v1")
+	svc, _ := doc["services"].(map[string]any)["svc.v1"].(map[string]any)
+	if svc == nil {
+		return
+	}
+	if n, ok := svc["networks"].(map[string]any); ok {
+		if v, ok := n["net"]; ok {
+			n["net.v1"] = v
+			delete(n, "net")
+		}
+	}
+	fix := func(l any, from, to string) {
+		if items, ok := l.([]any); ok {
+			for _, it := range items {
+				if m, ok := it.(map[string]any); ok && m["source"] == from {
+					m["source"] = to
+				}
+			}
+		}
+	}
+	fix(svc["volumes"], "vol", "vol.v1")
+	fix(svc["secrets"], "sec", "sec.v1")
+	fix(svc["configs"], "cfg", "cfg.v1")
+	if b, ok := svc["build"].(map[string]any); ok {
+		fix(b["secrets"], "sec", "sec.v1")
+	}
 }
 
 type fatLeaf struct {
@@ -224,11 +269,23 @@ func setLeaf(root map[string]any, segs []any, v any) {
 
 func schemaAdmitsString(paths []schemaPath, segs []any) (bool, bool) {
 	var key []string
-	for _, s := range segs {
+	for i, s := range segs {
 		if _, ok := s.(int); ok {
 			key = append(key, "[]")
 		} else {
-			key = append(key, s.(string))
+			k := s.(string)
+			// user-chosen keys are walked with one sample name per mapping
+			if i > 0 {
+				switch prev, _ := segs[i-1].(string); prev {
+				case "ulimits":
+					k = "nofile"
+				case "volumes":
+					if i == 1 {
+						k = "vol"
+					}
+				}
+			}
+			key = append(key, k)
 		}
 	}
 	k := strings.Join(key, ".")
@@ -280,6 +337,11 @@ func c08TypedCheck(c *Ctx, cs c08TypedCase) *Failure {
 		setLeaf(litDoc, leaf.segs, true)
 	case "yaml11-false":
 		setLeaf(litDoc, leaf.segs, false)
+	}
+	if cs.Dotted {
+		c.Label("typed:dotted-names")
+		dotNames(litDoc)
+		dotNames(varDoc)
 	}
 	load := func(doc map[string]any) loadResult {
 		return loadCase{Files: []memFile{{Name: "compose.yaml", Content: emitYAML(doc, nil)}}, Main: []string{"compose.yaml"}, Env: env, Opts: loadOpts{SkipConsistencyCheck: true}}.loadMem()
@@ -388,6 +450,7 @@ func c08TypedCases() ([]c08TypedCase, map[string]int) {
 		for _, v := range []string{"var", "default", "split"} {
 			out = append(out, c08TypedCase{Path: p, Literal: lit, Kind: kind, Variant: v, Text: lit})
 		}
+		out = append(out, c08TypedCase{Path: p, Literal: lit, Kind: kind, Variant: "var", Text: lit, Dotted: true})
 		switch kind {
 		case "bool":
 			for _, t := range []string{"yes", "on", "y", "Yes", "ON", "TRUE", "True"} {
